@@ -157,6 +157,16 @@ func genPNG(rt *rapid.T, maxICC int) Case {
 			nameLen := gen.Biased(rt, "namelen", 1, 79, 1, 78, 79)
 			name := bytes.Repeat([]byte{'N'}, nameLen)
 			name[nameLen-1] = byte(rapid.IntRange(0x21, 0x7E).Draw(rt, "namech"))
+			if rapid.Bool().Draw(rt, "latin1name") {
+				// printable Latin-1 (0x20-0x7E, 0xA1-0xFF), as the PNG specification allows
+				for k := range name {
+					ch := rapid.IntRange(0x21, 0xFF).Draw(rt, "latin1")
+					if ch >= 0x7F && ch <= 0xA0 {
+						ch = 0xE9
+					}
+					name[k] = byte(ch)
+				}
+			}
 			level := rapid.SampledFrom([]int{0, 1, 6, 9, -2}).Draw(rt, "level")
 			ch := build.ICCPChunk(string(name), prof, level)
 			c.Expect = Expect{Kind: "profile", Profile: prof}
